@@ -70,7 +70,8 @@ def uncontended_case(draw, tier):
         ops.append({"parents": [i - 1] if i else [], "segs": segs})
     arrival = draw(st.integers(0, 6))
     params = {"scheduler_algo": sched, "ticks_per_second": tps, "duration": (arrival + 14 * nops * 2 + 6.5) / tps,
-              "num_pools": 1, "cpus_per_pool": draw(st.sampled_from([16, 1, 2, 3, 4, 8, 64, 30])), "ram_gb_per_pool": draw(st.sampled_from([64, 500, 20])),
+              "num_pools": 1, "cpus_per_pool": draw(st.sampled_from([16, 1, 2, 3, 4, 8, 64, 30] + ([0.8, 0.5, 2.5] if sched == "naive" else []))),
+              "ram_gb_per_pool": draw(st.sampled_from([64, 500, 20])),
               "multi_operator_containers": draw(st.booleans()), "allow_memory_overcommit": False, "random_seed": 1,
               "interactive_prob": 0.3, "query_prob": 0.1, "batch_prob": 0.6}
     return {"params": params, "arrivals": [[arrival, {"prio": draw(st.sampled_from([3, 1, 2])), "ops": ops}]], "uncontended": True}
